@@ -101,7 +101,7 @@ pub fn run_target(ctx: &Ctx, target: &str, data: &[u8]) -> Vec<Viol> {
                     injections.push(Inj::Datagram(src, crate::engine::hex(bytes)));
                 }
             }
-            crate::props::c08::run_case(ctx, &Case { state, injections, stale: (data[0] as usize / ALL_STATES.len()) as u8 % 4 })
+            crate::props::c08::run_case(ctx, &Case { state, injections, stale: (data[0] as usize / ALL_STATES.len()) as u8 % 4, age: if data[0] >= 128 { (data[0] - 128) % 40 } else { 0 } })
         }
     }
 }
